@@ -25,6 +25,7 @@ type simCfg struct {
 	FaultPos  int               `json:"fault_pos"` // -1: none
 	FaultKind string            `json:"fault_kind"`
 	ErrText   string            `json:"err_text"`
+	TimeoutS  int               `json:"timeout_s"` // time-out of the program under test (how long to linger)
 }
 
 type devSim struct {
@@ -136,6 +137,15 @@ func (d *devSim) fault(echoLine, normal string, promptAfter string) bool {
 		return false
 	case "silence":
 		d.silent = true
+	case "stall_partial":
+		// the device stops in the middle of a line: echo and half of the first line of output
+		// (no newline, no prompt), then nothing more while the connection stays open
+		first, _, _ := strings.Cut(chunk, "\n")
+		if first == "" {
+			first = prompt
+		}
+		d.emit(echoLine + first[:(len(first)+1)/2])
+		d.silent = true
 	case "truncated":
 		if more {
 			d.emit(echoLine + chunk)
@@ -200,7 +210,7 @@ func runDevSim(dir string) {
 	defer d.finish()
 	// The code under test never closes the pty of a session it aborts; do not linger.
 	go func() {
-		time.Sleep(20 * time.Second)
+		time.Sleep(time.Duration(20+4*d.cfg.TimeoutS) * time.Second)
 		os.Exit(0)
 	}()
 	prompt := d.cfg.Name + "#"
@@ -209,6 +219,10 @@ func runDevSim(dir string) {
 		d.mark(d.cfg.FaultKind)
 		switch d.cfg.FaultKind {
 		case "silence", "truncated":
+			d.silent = true
+		case "stall_partial":
+			first, _, _ := strings.Cut(pre, "\n")
+			d.emit(first[:(len(first)+1)/2])
 			d.silent = true
 		case "close":
 			return
